@@ -741,7 +741,11 @@ func RewriteBiased(conf Conf) *rapid.Generator[Prog] {
 		switch rapid.IntRange(0, 9).Draw(t, "rwkind") {
 		case 0, 1:
 			c.feat("rw/literal")
-			core = pick(t, "lit", rwLiterals)
+			if rapid.Bool().Draw(t, "genlit") {
+				core = constLiteral(t, 3)
+			} else {
+				core = pick(t, "lit", rwLiterals)
+			}
 		case 2, 3:
 			c.feat("rw/args")
 			op := pick(t, "op", rwOps)
@@ -798,4 +802,50 @@ func PathExprOnly(depth int) *rapid.Generator[string] {
 		c := &pctx{feats: map[string]bool{}, budget: &b}
 		return c.PathExpr(t, rapid.IntRange(0, depth).Draw(t, "pdepth"))
 	})
+}
+
+// constLiteral generates an array/object literal of constants (with duplicate
+// keys, falsy and empty values, signed numbers, every key spelling) and now
+// and then one non-constant member.
+func constLiteral(t *rapid.T, depth int) string {
+	scalar := func() string {
+		return pick(t, "cscalar", []string{"null", "false", "true", "0", "1", "-1", "-0", "1.5", "-1.5", "\"\"", "\"a\"", "\"b\"", "[]", "{}", "1e2", "100000000000000000000", "-100000000000000000000"})
+	}
+	var val func(d int) string
+	val = func(d int) string {
+		k := rapid.IntRange(0, 9).Draw(t, "ckind")
+		if d <= 0 || k < 4 {
+			if rapid.IntRange(0, 14).Draw(t, "nonconst") == 0 {
+				return pick(t, "nonconst", []string{".", ".a", "(1,2)", "empty", "$__loc__.line", "(1|.)", "(\"a\"|.)", "[.]", "-(1)", "(null)", "1 + 1", "\"x\\(1)\""})
+			}
+			return scalar()
+		}
+		n := rapid.IntRange(0, 4).Draw(t, "cwidth")
+		if k < 7 {
+			parts := make([]string, n)
+			for i := range parts {
+				parts[i] = val(d - 1)
+			}
+			return "[" + strings.Join(parts, ",") + "]"
+		}
+		parts := make([]string, n)
+		for i := range parts {
+			key := pick(t, "ckey", []string{"a", "a", "b", "\"a\"", "\"b\"", "\"\"", "(\"a\")", "\"a\\(\"\")\"", "c", "@text \"a\"", "$__loc__", "if", "and"})
+			if key == "$__loc__" {
+				parts[i] = key
+				continue
+			}
+			v := val(d - 1)
+			if strings.ContainsAny(v, " +") && !strings.HasPrefix(v, "(") && !strings.HasPrefix(v, "[") && !strings.HasPrefix(v, "{") && !strings.HasPrefix(v, "\"") {
+				v = "(" + v + ")"
+			}
+			parts[i] = key + ":" + v
+		}
+		return "{" + strings.Join(parts, ",") + "}"
+	}
+	s := val(depth)
+	if !strings.HasPrefix(s, "[") && !strings.HasPrefix(s, "{") {
+		s = "[" + s + "]"
+	}
+	return s
 }
